@@ -11,9 +11,20 @@ import (
 
 // c16Plain hides the in-memory store's Transaction method, so keyvalue.FS takes the serial
 // fallback transaction used for plain stores.
-type c16Plain struct{ s *store }
+type c16Plain struct {
+	s *store
+	// the Get call with this running index fails once (-1: never)
+	failGet, gets int
+}
+
+var c16ErrStore = errors.New("injected store failure")
 
 func (p *c16Plain) Get(ctx context.Context, path string) (keyvalue.FileRecord, error) {
+	i := p.gets
+	p.gets++
+	if i == p.failGet {
+		return nil, c16ErrStore
+	}
 	return p.s.Get(ctx, path)
 }
 func (p *c16Plain) Set(ctx context.Context, path string, src keyvalue.FileRecord) error {
@@ -30,7 +41,8 @@ type c16FS interface {
 func c16NewFS() c16FS {
 	if verifChoice("store", 2) == 1 {
 		verifTag("store", "plain")
-		fs, err := keyvalue.NewFS(&c16Plain{newStore()})
+		c16LastPlain = &c16Plain{s: newStore(), failGet: -1}
+		fs, err := keyvalue.NewFS(c16LastPlain)
 		verifAssert(err == nil, "keyvalue.NewFS(plain store) failed")
 		return fs
 	}
@@ -39,6 +51,8 @@ func c16NewFS() c16FS {
 	verifAssert(err == nil, "NewFS failed")
 	return fs
 }
+
+var c16LastPlain *c16Plain
 
 // names include string-prefix pairs (a / ab / a.b) on purpose.
 var c16Names = []string{"a", "ab", "b", "a.b", "c", "ba"}
@@ -165,5 +179,45 @@ func VerifC16List() {
 		verifAssert(err != nil, "list: listing a regular file succeeded")
 		verifAssert(errors.Is(err, hackpadfs.ErrNotDir), "list: listing a regular file must fail with ErrNotDir")
 		verifReach("notdir")
+	}
+}
+
+// VerifC16PageFaults: a look-up of the plain store fails once while a page is being assembled: that ReadDir
+// call returns an error, and the children of the failed page are not lost - paging on (without faults) still
+// yields every child exactly once before io.EOF.
+func VerifC16PageFaults() {
+	fs, c, _ := c16Dir()
+	verifAssume(c16LastPlain != nil && c >= 2)
+	f, err := fs.Open("d")
+	verifAssert(err == nil, "Open(d) failed")
+	seen := make([]bool, c)
+	fault := verifInt("fault")
+	verifAssume(fault >= 0)
+	verifAssume(fault <= 6)
+	c16LastPlain.gets, c16LastPlain.failGet = 0, fault
+	n := 1 + verifChoice("page", 2)
+	fired := false
+	for call := 0; call < 2*c+3; call++ {
+		entries, rerr := hackpadfs.ReadDirFile(f, n)
+		if c16LastPlain.gets > c16LastPlain.failGet && c16LastPlain.failGet >= 0 {
+			fired = true
+			c16LastPlain.failGet = -1
+		}
+		for _, e := range entries {
+			i := c16Index(e.Name(), c)
+			verifAssert(i >= 0, "page: entry that is not a child of the directory")
+			verifAssert(!seen[i], "page: child returned twice across pages")
+			seen[i] = true
+		}
+		if rerr == io.EOF {
+			break
+		}
+	}
+	verifReach("paged")
+	if fired {
+		verifReach("fault-fired")
+	}
+	for i := 0; i < c; i++ {
+		verifAssert(seen[i], "a child was never returned: the page whose look-up failed was skipped")
 	}
 }
